@@ -17,6 +17,7 @@ WHAT IS READ (text level, comments removed):
  * `header_version`: per chain type `HeaderVersion(min(5, V))` with `V = (1 + height / CONST) as u16`
    -> `interval CONST`; an `if height < C1 {1} else if height < C2 {2} ...` chain -> `thresholds [C1..]`;
    anything else -> `hvUnknown`.
+ * `valid_header_version`: the body is exactly `version == header_version(height)` (flag).
  * `create_pow_context`: the chain types of the `if chain_type == A || chain_type == B` test, the
    bound of `edge_bits > N`, the constructor above the bound, the `HeaderVersion(k) => new_X_ctx` arms,
    the default arm, the constructor of the `else` branch.
@@ -326,6 +327,11 @@ def render(glob_src, cons_src):
     L.append(f"def ctxOther : String := \"{d['other']}\"")
     L.append("/-- every constructor call of the function is one of the above -/")
     L.append(f"def ctxShapeOk : Bool := {'true' if d['ok'] else 'false'}")
+    L.append("")
+    vb = fn_body(cons_src, "valid_header_version")
+    veq = vb is not None and re.sub(r"\s+", "", vb) in ("version==header_version(height)", "header_version(height)==version")
+    L.append("/-- `consensus::valid_header_version(height, version)` is exactly `version == header_version(height)` -/")
+    L.append(f"def validVersionIsScheduleEq : Bool := {'true' if veq else 'false'}")
     L.append("")
     L.append("def parseError : Option String := none")
     L.append("")
